@@ -1,3 +1,70 @@
-From Coq Require Import List.
-Theorem C14_placeholder : True. Proof. exact I. Qed.
-Print Assumptions C14_placeholder.
+(* C14 — parameter operators: algebraic laws the operator rules rest on
+   Property theorems only: each is closed by `exact <lemma>`; proofs live in the imported files. *)
+From Coq Require Import List ZArith QArith Qcanon Ring_theory Field_theory Permutation Sorted.
+Import ListNotations.
+From CK Require Import Base.
+From CK Require Import Circ.
+From CK Require Import Multiply.
+From CK Require Import Algebra.
+From CK Require Import Hom.
+Close Scope Qc_scope. Close Scope Q_scope. Close Scope Z_scope. Open Scope nat_scope.
+
+(* coefficient convolution evaluates to the product of the polynomials *)
+Theorem C14_polynomial_product :
+  forall (R : Type) (rO rI : R) (radd rmul : R -> R -> R),
+         semi_ring_theory rO rI radd rmul eq ->
+         forall (p q : vec R) (x : R),
+         horner R rO radd rmul (conv R rO radd rmul p q) x =
+         rmul (horner R rO radd rmul p x) (horner R rO radd rmul q x).
+Proof. exact horner_conv. Qed.
+Print Assumptions C14_polynomial_product.
+
+(* ... row pairs in Kronecker order *)
+Theorem C14_polynomial_product_rows :
+  forall (R : Type) (rO rI : R) (radd rmul : R -> R -> R),
+         semi_ring_theory rO rI radd rmul eq ->
+         forall (P Q : list (vec R)) (x : R),
+         map (fun r : vec R => horner R rO radd rmul r x)
+           (flat_map (fun p : vec R => map (conv R rO radd rmul p) Q) P) =
+         kron R rmul (map (fun p : vec R => horner R rO radd rmul p x) P)
+           (map (fun q : vec R => horner R rO radd rmul q x) Q).
+Proof. exact horner_conv_rows. Qed.
+Print Assumptions C14_polynomial_product_rows.
+
+(* the outer product along axis 0 of two matrices, read at a column, is the Kronecker product of the two columns *)
+Theorem C14_outer_product_columns :
+  forall (R : Type) (rO rI : R) (radd rmul : R -> R -> R),
+         semi_ring_theory rO rI radd rmul eq ->
+         forall (A B : list (vec R)) (s : nat),
+         col R rO s (flat_map (fun a : vec R => map (fun b : vec R => had R rmul a b) B) A) =
+         kron R rmul (col R rO s A) (col R rO s B).
+Proof. exact col_outer. Qed.
+Print Assumptions C14_outer_product_columns.
+
+(* reduce-sum over the state axis is the sum of the lookups over all states *)
+Theorem C14_reduce_sum_states :
+  forall (R : Type) (rO : R) (radd : R -> R -> R) (row : vec R),
+         vsum R rO radd (map (fun s : nat => nth s row rO) (seq 0 (length row))) = vsum R rO radd row.
+Proof. exact vsum_states. Qed.
+Print Assumptions C14_reduce_sum_states.
+
+(* mixed-product law of the Kronecker product *)
+Theorem C14_kronecker_mixed_product :
+  forall (R : Type) (rO rI : R) (radd rmul : R -> R -> R),
+         semi_ring_theory rO rI radd rmul eq ->
+         forall w1 w2 x1 x2 : vec R,
+         length w1 = length x1 ->
+         length w2 = length x2 ->
+         dot R rO radd rmul (kron R rmul w1 w2) (kron R rmul x1 x2) =
+         rmul (dot R rO radd rmul w1 x1) (dot R rO radd rmul w2 x2).
+Proof. exact dot_kron. Qed.
+Print Assumptions C14_kronecker_mixed_product.
+
+(* entry i of the differentiated coefficients is (i+1) times coefficient i+1 *)
+Theorem C14_polynomial_differential :
+  forall (R : Type) (rO rI : R) (radd rmul : R -> R -> R),
+         semi_ring_theory rO rI radd rmul eq ->
+         forall (i : nat) (p : vec R),
+         nth i (pdiff1 R rI radd rmul p) rO = nmul R rO radd (S i) (nth (S i) p rO).
+Proof. exact nth_pdiff1. Qed.
+Print Assumptions C14_polynomial_differential.
